@@ -7,6 +7,7 @@ unwinding assertions on) or *bounded* (stated bound; reported separately, never 
 """
 import os
 import re
+import resource
 import shutil
 import subprocess
 import time
@@ -17,23 +18,57 @@ from kx.groups import GROUPS
 VERIF = os.path.dirname(os.path.dirname(os.path.abspath(__file__)))
 REPO = os.environ.get('VERIF_REPO', '/repo')
 
+MEM_LIMIT = int(os.environ.get('VERIF_KANI_MEM_GB', '14')) << 30
+
+
+def _limits():
+    # every cbmc child inherits this: a runaway solver dies instead of exhausting the machine (no swap here)
+    resource.setrlimit(resource.RLIMIT_AS, (MEM_LIMIT, MEM_LIMIT))
+
+
 SHIM_NOTE = ('Kani results: anyhow replaced by a unit-struct shim in the scratch copy (error values lose their message; control flow identical); '
              'backtrace feature dropped')
 
 
+CACHE = os.environ.get('VERIF_CACHE', '/var/tmp/verif-cache')
+_locks = []
+
+
+def cached_ws(name, scratch):
+    """a scratch copy of /repo at a *stable* path (so that cargo's build cache under CACHE is reused between runs),
+    refreshed from /repo's working tree on every run (rsync --checksum --delete) and guarded by a lock file that is
+    held until this process exits.  VERIF_NOCACHE=1 falls back to a throw-away copy under the per-run scratch dir."""
+    import fcntl
+    if os.environ.get('VERIF_NOCACHE'):
+        ws = os.path.join(scratch, name)
+        tdir = scratch
+    else:
+        os.makedirs(CACHE, exist_ok=True)
+        lock = open(os.path.join(CACHE, name + '.lock'), 'w')
+        fcntl.flock(lock, fcntl.LOCK_EX)
+        _locks.append(lock)
+        ws = os.path.join(CACHE, name)
+        tdir = CACHE
+    os.makedirs(ws, exist_ok=True)
+    subprocess.run(['rsync', '-a', '--checksum', '--delete', '--exclude', '/target', '--exclude', '.git', REPO + '/', ws + '/'], check=True)
+    return ws, tdir
+
+
+_ws_cache = {}
+
+
 def make_ws(scratch):
-    ws = os.path.join(scratch, 'ws')
-    if os.path.exists(ws):
-        return ws
-    os.makedirs(ws)
-    subprocess.run(['rsync', '-a', '--exclude', 'target', '--exclude', '.git', REPO + '/', ws + '/'], check=True)
-    shutil.copytree(os.path.join(VERIF, 'kx', 'shim', 'anyhow'), os.path.join(ws, 'verif_anyhow_shim'))
+    if 'kani' in _ws_cache:
+        return _ws_cache['kani']
+    ws, tdir = cached_ws('ws-kani', scratch)
+    shutil.copytree(os.path.join(VERIF, 'kx', 'shim', 'anyhow'), os.path.join(ws, 'verif_anyhow_shim'), dirs_exist_ok=True)
     p = os.path.join(ws, 'Cargo.toml')
     t = open(p).read()
     t2 = re.sub(r'anyhow\s*=\s*\{\s*version\s*=\s*"([^"]+)"\s*,\s*features\s*=\s*\[[^\]]*\]\s*\}', r'anyhow = { version = "\1" }', t)
     t2 += '\n[patch.crates-io]\nanyhow = { path = "verif_anyhow_shim" }\n'
     open(p, 'w').write(t2)
-    return ws
+    _ws_cache['kani'] = (ws, tdir)
+    return ws, tdir
 
 
 def install_group(ws, gname):
@@ -108,7 +143,7 @@ def run_cargo_kani(ws, crate, harnesses, target_dir, timeout_s, jobs, extra=()):
     t0 = time.time()
     try:
         p = subprocess.run(cmd, cwd=ws, env=env, capture_output=True, text=True, timeout=timeout_s * max(1, (len(harnesses) + jobs - 1) // jobs) + 600,
-                           start_new_session=True)
+                           start_new_session=True, preexec_fn=_limits)
         out = p.stdout + '\n' + p.stderr
         rc = p.returncode
     except subprocess.TimeoutExpired as e:
@@ -128,8 +163,9 @@ def playback(ws, g, gname, hname, target_dir, timeout_s):
            '--concrete-playback=print', '--exact', '--harness', f'{modpath}::{hname}'] + list(g.get('kani_flags', []))
     env = dict(os.environ, CARGO_NET_OFFLINE='true')
     try:
-        p = subprocess.run(cmd, cwd=ws, env=env, capture_output=True, text=True, timeout=timeout_s + 300, start_new_session=True)
+        p = subprocess.run(cmd, cwd=ws, env=env, capture_output=True, text=True, timeout=timeout_s + 300, start_new_session=True, preexec_fn=_limits)
     except subprocess.TimeoutExpired:
+        subprocess.run(['pkill', '-9', '-f', target_dir])
         return None
     m = re.search(r'```\n(.*?)```', p.stdout, re.S)
     if not m:
@@ -162,7 +198,7 @@ def run_groups(prop, gnames, tier, scratch, only_harness=None):
     """returns a list of result dicts (one per group) in the driver's format"""
     results = []
     try:
-        ws = make_ws(scratch)
+        ws, tdir = make_ws(scratch)
         for gname in gnames:
             install_group(ws, gname)
     except (CutError, OSError, subprocess.CalledProcessError) as e:
@@ -180,7 +216,7 @@ def run_groups(prop, gnames, tier, scratch, only_harness=None):
                 continue
             by_crate.setdefault(g['crate'], []).append((gname, h))
     for crate, hs in by_crate.items():
-        target_dir = os.path.join(scratch, 'kani-target-' + crate)
+        target_dir = os.path.join(tdir, 'kani-target-' + crate)
         tmo = max(h.get('timeout', 300) for _, h in hs)
         extra = []
         if any(GROUPS[g].get('kani_flags') for g, _ in hs):
